@@ -208,9 +208,9 @@ def run_history(res: Result, lab, h, label):
 
     gc.collect()
     if h["endmarker"]:
-        pairs.wait_until(lambda: any(g is E for g in got), 6.0)
+        pairs.wait_until(lambda: any(g is E for g in got), 15.0)
     else:
-        pairs.wait_until(lambda: len(got) >= n, 6.0)
+        pairs.wait_until(lambda: len(got) >= n, 15.0)
         time.sleep(0.002)
     bad = [g for g in got if isinstance(g, tuple) and g and g[0] == "close-raised"]
     if bad:
@@ -289,9 +289,9 @@ def run_loss_history(res: Result, h, label, pre_setup=None):
                 res.violation(m("setcallback-blocked"), label)
                 return
         if h["endmarker"]:
-            pairs.wait_until(lambda: any(g is E for g in got), 6.0)
+            pairs.wait_until(lambda: any(g is E for g in got), 15.0)
         else:
-            pairs.wait_until(lambda: len(got) >= n, 6.0)
+            pairs.wait_until(lambda: len(got) >= n, 15.0)
             time.sleep(0.002)
         check_callback_log(res, h, list(got), label, m)
         res.count("histories")
